@@ -241,6 +241,130 @@ def parse_views(sc, out, tier, rng, model):
                 out.count("parse_model", "compared")
 
 
+# ---------------------------------------------------------------- in-process: parse + merge + match, both directions, name families
+# every literal the two families share or could confuse: an MCP name used as a shell pattern and the other way round, the same
+# pattern text in both families ("the same value twice"), names with a prefix / suffix character, case changes, glob forms
+F_TOOLS = ["mcp__ok__x", "mcp__ok__bad", "mcp__q__y", "mcp__none", "mcp__", "mcp__ok__x ", "Mcp__ok__x", "mcp__ok__xx", "xmcp__ok__x", "ls", "Bash",
+           "rm -rf /", "git push", "*", "mcp__ok__x\n", "zap", "mcp__a/b", "mcp__ok__*"]
+F_CMDS = ["ls", "rm x", "git push", "zap it", "okcmd", "frobnicate a", "cat f > /tmp/x", "mcp__ok__x", "mcp__ok__x a", "Bash", "echo hi > mcp__ok__x", "g status"]
+F_PATS = ["*", "mcp__*", "mcp__ok__*", "mcp__ok__x", "mcp__ok__bad", "mcp__?__y", "mcp__[a-o]*", "ls", "rm *", "git *", "zap", "okcmd", "Bash", "g", "/tmp/*",
+          "mcp__ok__x *", "nomatch", "mcp__ok__x|"]
+
+
+def family_line(rng, fam):
+    pat = rng.choice(F_PATS)
+    if fam == "mcp":
+        d = rng.choice(["allow-mcp", "ask-mcp", "deny-mcp", "after-mcp"])
+    else:
+        d = rng.choice(["allow", "ask", "deny", "allow-redirect", "ask-redirect", "deny-redirect", "after", "alias"])
+        if d == "alias":
+            return "alias " + rng.choice(["g git", "mcp__ok__x ls", "ls zap", "zap mcp__ok__x"])
+    msg = "" if d.startswith("allow") or rng.random() < 0.5 else ' "m%d"' % rng.randint(0, 9)
+    return f"{d} {pat}{msg}"
+
+
+def family_streams(sc, out, tier, rng, replay_case=None):
+    """Three layers of mixed configuration text are parsed and merged by the real code (parse_config, _tag_rules, _merge_configs in
+    the order load_config uses: user, project, env).  Deleting every line of one family from every layer, permuting them, or
+    doubling them must not change any answer of the other family's matchers (match_mcp / match_after_mcp resp. analyze /
+    match_redirect / match_after); and match_mcp's answer is the last *-mcp line (in layer order) whose glob matches, by fnmatch."""
+    import fnmatch
+    import warnings
+    from pathlib import Path
+
+    from dippy.core import analyzer as an
+    from dippy.core import config as C
+
+    warnings.simplefilter("ignore")
+    cwd = Path(sc.proj(None))
+
+    def load(layers):
+        cfg = C.Config()
+        for scope, text in zip(("user", "project", "env"), layers):
+            cfg = C._merge_configs(cfg, C._tag_rules(C.parse_config(text, source=scope), scope, scope))
+        return cfg
+
+    def mcp_answers(cfg):
+        res = []
+        for t in F_TOOLS:
+            m = C.match_mcp(t, cfg)
+            res.append((t, None if m is None else (m.decision, m.pattern, m.message, m.scope), C.match_after_mcp(t, cfg)))
+        return res
+
+    def shell_answers(cfg):
+        res = []
+        for c in F_CMDS:
+            d = an.analyze(c, cfg, cwd)
+            res.append((c, d.action, d.reason, C.match_after(c.split(), cfg, cwd)))
+        return res
+
+    def one(case):
+        layers = case["layers"]
+        fam = case["edit_family"]
+        with cfgtext.home_env(sc.home(None)):
+            fams = [[cfgtext.line_family(C.parse_config, l) for l in layer] for layer in layers]
+            edited = []
+            for layer, fs in zip(layers, fams):
+                mine = [l for l, f in zip(layer, fs) if f == fam]
+                if case["edit"] == "delete":
+                    new = [l for l, f in zip(layer, fs) if f != fam]
+                elif case["edit"] == "reverse":
+                    it = iter(reversed(mine))
+                    new = [next(it) if f == fam else l for l, f in zip(layer, fs)]
+                elif case["edit"] == "double":
+                    new = [x for l, f in zip(layer, fs) for x in ([l, l] if f == fam else [l])]
+                else:  # move: the family's lines of this layer go to the front of the layer
+                    new = mine + [l for l, f in zip(layer, fs) if f != fam]
+                edited.append(new)
+            a, b = load([cfg(l) for l in layers]), load([cfg(l) for l in edited])
+            other = "shell" if fam == "mcp" else "mcp"
+            ra, rb = (shell_answers(a), shell_answers(b)) if other == "shell" else (mcp_answers(a), mcp_answers(b))
+            out.count("family_stream", f"{fam}:{case['edit']}")
+            for x, y in zip(ra, rb):
+                if x != y:
+                    out.violations.append({"kind": "family", "case": case, "what": f"{case['edit']} of the {fam} lines changed the {other} answer for {x[0]!r}: {x[1:]} -> {y[1:]}",
+                                           "signature_text": f"family-{fam}-edit | {case['edit']}"})
+                    break
+            # ground truth for match_mcp: the last *-mcp line, in layer order, whose glob matches
+            # (the family of a line is read off its directive WORD here, not asked of the parser: a parser that files a
+            # shell directive under the MCP lists must not be believed)
+            def textual(l):
+                w = l.split(None, 1)[0].lower() if l.split() else ""
+                return "mcp" if w in ("allow-mcp", "ask-mcp", "deny-mcp", "after-mcp") else "shell" if w in (
+                    "allow", "ask", "deny", "allow-redirect", "ask-redirect", "deny-redirect", "after", "alias") else None
+            for layer, fs in zip(layers, fams):
+                for l, f in zip(layer, fs):
+                    if f in ("mcp", "shell") and textual(l) != f:
+                        out.violations.append({"kind": "family", "case": case, "what": f"the line {l!r} is a {textual(l)} directive but parse_config files it under the {f} lists",
+                                               "signature_text": "family-parse | wrong-list"})
+                        return
+            lines = [(l.split(None, 1)[0].lower(), l) for layer, fs in zip(layers, fams) for l, f in zip(layer, fs) if f == "mcp" and textual(l) == "mcp"]
+            for t, got, _ in mcp_answers(a):
+                hits = [d for d, l in lines if d != "after-mcp" and fnmatch.fnmatch(t, C.parse_config(l).mcp_rules[0].pattern)]
+                want = hits[-1].split("-")[0] if hits else None
+                if (got[0] if got else None) != want:
+                    out.violations.append({"kind": "family", "case": case, "what": f"match_mcp({t!r}) answers {got}, the last matching *-mcp line says {want}",
+                                           "signature_text": "family-mcp | not-last"})
+                    break
+
+    if replay_case is not None:
+        one(replay_case)
+        out.case(replay_case)
+        return
+    n = 250 if tier == "quick" else 4000
+    for i in range(n):
+        layers = [[family_line(rng, rng.choice(["mcp", "shell"])) for _ in range(rng.randrange(0, 6))] + rng.sample(EXTRA_LINES, rng.randrange(0, 3)) for _ in range(3)]
+        for l in layers:
+            rng.shuffle(l)
+        if i % 5 == 0:   # the same pattern text in both families, in one layer and across layers
+            ptn = rng.choice(F_PATS)
+            layers[rng.randrange(3)].append(f"{rng.choice(['allow', 'deny', 'ask'])} {ptn}")
+            layers[rng.randrange(3)].append(f"{rng.choice(['allow-mcp', 'deny-mcp', 'ask-mcp'])} {ptn}")
+        case = {"layers": layers, "edit_family": ("mcp", "shell")[i % 2], "edit": ("delete", "reverse", "double", "move")[(i // 2) % 4]}
+        one(case)
+        out.case(["family", case], nontrivial=True)
+
+
 def run(tier, seed, replay=None):
     lib.use_repo()
     rng = random.Random(seed)
@@ -248,6 +372,12 @@ def run(tier, seed, replay=None):
     sc = H.Scratch()
     hm = None
     try:
+        if replay and replay.get("kind") == "family":
+            family_streams(sc, out, tier, rng, replay_case=replay["case"])
+            out.extra["rule"] = "replay of one family edit"
+            return out
+        if not replay:
+            family_streams(sc, out, tier, rng)
         if replay and replay.get("kind") == "parse":
             from dippy.core.config import parse_config
             fam = replay["signature_text"].split("-")[1]
@@ -307,6 +437,9 @@ def run(tier, seed, replay=None):
         "raising; shell calls (9 commands x rule lists x 3 shapes) re-run with *-mcp rules inserted and with match_mcp / match_after_mcp "
         "raising; 7 other tool names with random rules of both families; config-text edits (delete / permute / insert lines of one family "
         "in mixed configurations with comments, blank, rejected and set lines; families measured with the real parse_config) probed with "
-        "5 MCP names resp. 8 commands in the three shapes, Pre- and PostToolUse, plus in-process parse_config views. distinct = distinct (stdin, config, fault); every case is a "
+        "5 MCP names resp. 8 commands in the three shapes, Pre- and PostToolUse, plus in-process parse_config views; in-process family stream: three layers "
+        "of mixed text parsed and merged by the real code, one family deleted / reversed / doubled / moved, 18 tool names (incl. shell-looking, "
+        "prefixed / suffixed / case-changed) and 12 commands (incl. MCP-looking) answered by match_mcp / match_after_mcp resp. analyze / match_after, "
+        "the same pattern text in both families; match_mcp against the last matching *-mcp line by fnmatch. distinct = distinct (stdin, config, fault); every case is a "
         "member of a comparison")
     return out
